@@ -138,3 +138,40 @@ Proof. split; vm_compute; reflexivity. Qed.
 Example C36_strict_neighbours :
   fl_leb (to_seconds_td (2 ^ 33 * us_per_s - 1)) (to_seconds_td (2 ^ 33 * us_per_s - 2)) = false.
 Proof. vm_compute. reflexivity. Qed.
+
+(* ---- non-aligned floats: what to_timedelta(x) / to_datetime(x) is relative to x (Core/TimeConvFacts3.v) -- *)
+From RxVerif Require Import Core.TimeConvFacts3.
+
+(* x = m * 2^e with e < 0 (for e >= 0 the conversion is exact: us_of_float_form_nonneg).  The result is
+   strictly within one microsecond of x * 10^6 ... *)
+Theorem C36_us_of_float_nearest : forall m e, e < 0 ->
+  Z.abs (us_of_float (F m e) * 2 ^ (- e) - m * us_per_s) < 2 ^ (- e).
+Proof. exact us_of_float_nearest. Qed.
+Print Assumptions C36_us_of_float_nearest.
+
+(* ... more precisely within 1/2 + 2^-34 microsecond (the 2^-34 is the rounding of frac * 1e6 to a double) *)
+Theorem C36_us_of_float_close : forall m e, e < 0 ->
+  2 ^ 33 * (2 * Z.abs (us_of_float (F m e) * 2 ^ (- e) - m * us_per_s) - 2 ^ (- e)) <= 2 ^ (- e).
+Proof. exact us_of_float_close. Qed.
+Print Assumptions C36_us_of_float_close.
+
+(* exact whenever x * 10^6 is an integer *)
+Theorem C36_us_of_float_exact_on_integers : forall m e n, e < 0 ->
+  m * us_per_s = n * 2 ^ (- e) -> us_of_float (F m e) = n.
+Proof. exact us_of_float_exact_on_integers. Qed.
+Print Assumptions C36_us_of_float_exact_on_integers.
+
+(* floats with at most 33 fractional bits: exactly the nearest microsecond count, ties to even *)
+Theorem C36_us_of_float_nearest_even_coarse : forall m e, -33 <= e < 0 ->
+  us_of_float (F m e) = rne_div (m * us_per_s) (2 ^ (- e)).
+Proof. exact us_of_float_rne_coarse. Qed.
+Print Assumptions C36_us_of_float_nearest_even_coarse.
+
+(* "THE nearest microsecond count" for every float is NOT a theorem (double rounding in CPython's
+   timedelta(seconds=) / fromtimestamp): 0x1.0f2e7b3d8e000p-1 s = 529651.5 us - 2^-34 us goes to 529652 *)
+Theorem C36_us_of_float_nearest_exact_refuted :
+  us_of_float double_rounding_witness = 529652 /\
+  2 * Z.abs (529652 * 2 ^ 40 - 582357982919 * us_per_s) > 2 ^ 40 /\
+  2 * Z.abs (529651 * 2 ^ 40 - 582357982919 * us_per_s) < 2 ^ 40.
+Proof. exact us_of_float_nearest_exact_refuted. Qed.
+Print Assumptions C36_us_of_float_nearest_exact_refuted.
